@@ -17,8 +17,8 @@ use crate::types::{
     Atom, BigInt, ExternalFun, ExternalPid, ExternalPort, ExternalReference, InternalFun, Mfa,
 };
 use crate::ordering::{
-    compare_bigint, compare_bigint_float, compare_bigint_int, compare_float_bigint,
-    compare_float_int, compare_int_bigint, compare_int_float,
+    compare_bigint, compare_bigint_float, compare_bigint_int, compare_bitstrings,
+    compare_float_bigint, compare_float_int, compare_int_bigint, compare_int_float,
 };
 use std::cmp::Ordering;
 use std::collections::{BTreeMap, HashMap};
@@ -2112,63 +2112,18 @@ impl Ord for OwnedTerm {
                     }
                     Ordering::Equal
                 }),
-                (OwnedTerm::Nil, OwnedTerm::Nil) => Ordering::Equal,
-                (OwnedTerm::List(a), OwnedTerm::List(b)) => {
-                    for (x, y) in a.iter().zip(b.iter()) {
-                        match x.cmp(y) {
-                            Ordering::Equal => continue,
-                            other => return other,
-                        }
+                (a, b) if list_parts(a).is_some() && list_parts(b).is_some() => {
+                    match (list_parts(a), list_parts(b)) {
+                        (Some((a, ta)), Some((b, tb))) => compare_lists(a, ta, b, tb),
+                        _ => Ordering::Equal,
                     }
-                    a.len().cmp(&b.len())
-                }
-                (OwnedTerm::List(a), OwnedTerm::Nil) => {
-                    if a.is_empty() {
-                        Ordering::Equal
-                    } else {
-                        Ordering::Greater
-                    }
-                }
-                (OwnedTerm::Nil, OwnedTerm::List(b)) => {
-                    if b.is_empty() {
-                        Ordering::Equal
-                    } else {
-                        Ordering::Less
-                    }
-                }
-                (
-                    OwnedTerm::ImproperList {
-                        elements: a,
-                        tail: ta,
-                    },
-                    OwnedTerm::ImproperList {
-                        elements: b,
-                        tail: tb,
-                    },
-                ) => {
-                    for (x, y) in a.iter().zip(b.iter()) {
-                        match x.cmp(y) {
-                            Ordering::Equal => continue,
-                            other => return other,
-                        }
-                    }
-                    a.len().cmp(&b.len()).then_with(|| ta.cmp(tb))
                 }
                 (OwnedTerm::Binary(a), OwnedTerm::Binary(b)) => a.cmp(b),
                 (OwnedTerm::String(a), OwnedTerm::String(b)) => a.cmp(b),
-                (OwnedTerm::Binary(a), OwnedTerm::String(b)) => a.as_slice().cmp(b.as_bytes()),
-                (OwnedTerm::String(a), OwnedTerm::Binary(b)) => a.as_bytes().cmp(b.as_slice()),
-                (
-                    OwnedTerm::BitBinary {
-                        bytes: a,
-                        bits: abits,
-                    },
-                    OwnedTerm::BitBinary {
-                        bytes: b,
-                        bits: bbits,
-                    },
-                ) => a.cmp(b).then_with(|| abits.cmp(bbits)),
-                _ => Ordering::Equal,
+                (a, b) => match (bitstring_parts(a), bitstring_parts(b)) {
+                    (Some((a, abits)), Some((b, bbits))) => compare_bitstrings(a, abits, b, bbits),
+                    _ => Ordering::Equal,
+                },
             },
             other => other,
         }
@@ -2504,6 +2459,71 @@ impl OwnedTerm {
 
     pub fn list_builder() -> ListBuilder {
         ListBuilder::new()
+    }
+}
+
+/// Elements and (for improper lists) the tail of any list-like term.
+fn list_parts(term: &OwnedTerm) -> Option<(&[OwnedTerm], Option<&OwnedTerm>)> {
+    match term {
+        OwnedTerm::Nil => Some((&[], None)),
+        OwnedTerm::List(elements) => Some((elements, None)),
+        OwnedTerm::ImproperList { elements, tail } => Some((elements, Some(tail))),
+        _ => None,
+    }
+}
+
+/// Bytes and number of used bits in the last byte of any bit-string-like term.
+fn bitstring_parts(term: &OwnedTerm) -> Option<(&[u8], u8)> {
+    match term {
+        OwnedTerm::Binary(bytes) => Some((bytes, 8)),
+        OwnedTerm::String(s) => Some((s.as_bytes(), 8)),
+        OwnedTerm::BitBinary { bytes, bits } => Some((bytes, *bits)),
+        _ => None,
+    }
+}
+
+/// Erlang list order: element by element, then the rests (a shorter list or the tail term).
+fn compare_lists(
+    a: &[OwnedTerm],
+    a_tail: Option<&OwnedTerm>,
+    b: &[OwnedTerm],
+    b_tail: Option<&OwnedTerm>,
+) -> Ordering {
+    for (x, y) in a.iter().zip(b.iter()) {
+        match x.cmp(y) {
+            Ordering::Equal => continue,
+            other => return other,
+        }
+    }
+    let common = a.len().min(b.len());
+    let (a, b) = (&a[common..], &b[common..]);
+    match (a.is_empty(), b.is_empty()) {
+        (true, true) => match (a_tail, b_tail) {
+            (None, None) => Ordering::Equal,
+            (Some(t), None) => t.cmp(&OwnedTerm::Nil),
+            (None, Some(t)) => OwnedTerm::Nil.cmp(t),
+            (Some(ta), Some(tb)) => ta.cmp(tb),
+        },
+        (true, false) => compare_rest_with_cons(a_tail, b, b_tail),
+        (false, true) => compare_rest_with_cons(b_tail, a, a_tail).reverse(),
+        (false, false) => Ordering::Equal,
+    }
+}
+
+/// Compares the rest of an exhausted list (`None` is `[]`) with a non-empty rest of another list.
+fn compare_rest_with_cons(
+    rest: Option<&OwnedTerm>,
+    elements: &[OwnedTerm],
+    tail: Option<&OwnedTerm>,
+) -> Ordering {
+    match rest {
+        None => Ordering::Less,
+        Some(term) => match list_parts(term) {
+            Some((rest_elements, rest_tail)) => {
+                compare_lists(rest_elements, rest_tail, elements, tail)
+            }
+            None => term_type_order(term).cmp(&term_type_order(&OwnedTerm::Nil)),
+        },
     }
 }
 
